@@ -25,7 +25,7 @@ CLAIMS = {
    text="both directions over random histories (all table kinds and key/value types of the corpora, savepoints, compaction): every clean-close file and every crash image must be opened by the other release with exactly one commit point of the history, the same contents the writing release shows, a passing integrity check and a working subsequent write. One known finding (3.0.0 answers Ok(false) on files shorter than it ever creates).",
    note="4 KiB pages only (3.0.0 cannot choose); 3.0.0's own unrecoverable crash images skipped", ref="DESIGN.md 4/C19"),
  "C13": dict(cat="fault_enumeration", tech="TLA+ spec Compact.tla (the relocation loop on page positions, all small forests and placements) checked by TLC; TLA+ oracle (Kv.tla Compact + CrashAtomic) with TLC trace validation of compaction-heavy histories and crash enumeration of every backend operation issued during compaction",
-   text="contents unchanged, refusals as documented, file never larger, bounded syncs, and all crash points inside compaction recover to the unchanged contents.",
+   text="contents unchanged, refusals as documented (a reader at every position relative to pending non-durable commits), file never larger, bounded syncs (a compact() that does not finish is ended by a watchdog and reported), compact() again at once moves nothing, and all crash points inside compaction recover to the unchanged contents. One known finding: compact() on a just-compacted file can extend it.",
    note="pass bound is a function of the file size (8 * (pages + 8) syncs)", ref="DESIGN.md 4/C13"),
  "C15": dict(cat="exploration", tech="TLA+ spec KeyOrder.tla (separator rules transcribed, contract checked by TLC over small domains) + enumeration of real encodings of all built-in key types judged by TLC (KeyOrderTrace.tla)",
    text="exploration with a specification oracle: the contract (order equals value order, a <= sep < b, no longer than a, valid encoding, round trip) is stated in TLA+, the separator rules are model-checked on small domains, and every ordered pair of a per-type corpus of real encodings is judged by TLC.",
@@ -46,7 +46,7 @@ CLAIMS = {
    text="design: one write slot, readers see committed roots not older than their registration, commits publish atomically (Pager.tla). code: forced interleavings of begin_read with commits (window semantics of Kv.tla), histories of commits of all durabilities/aborts validated as one serial order.",
    note="preemption modelled at lock boundaries of the anchored code; only the begin_read window is replayed with real threads so far", ref="DESIGN.md 4/C03"),
  "C05": dict(cat="model_checking", tech=PAGER + "TLC trace validation of histories with abandoned transactions incl. equality of the allocated page set before/after",
-   text="design: AbortRestores (action property) and Kv.tla Abort. code: random histories with 20-25% abandoned transactions (abort, drop, after savepoint/catalog/durability operations); later calls must behave as if they never happened and the allocated page set must be EQUAL before and after.",
+   text="design: AbortRestores (action property) and Kv.tla Abort. code: random histories with 20-25% abandoned transactions (abort, drop, after savepoint/catalog/durability operations); later calls must behave as if they never happened and the allocated page set must be EQUAL before and after; a transaction dropped while a panic unwinds through it may leak only until the reopen and only while the needs_repair latch is set.",
    note="panicking predicates are injected; I/O failures inside rename/delete/restore are exercised by C08's fault enumeration", ref="DESIGN.md 4/C05"),
  "C06": dict(cat="model_checking", tech=PAGER + "TLC evaluation of the ownership invariants (PagerInv.tla) on state projections recorded after every transaction of random histories",
    text="design: Owner1/Pinned/AllocRecordsOk on every state of the model. code: after every transaction end the projected allocator/tree/freed-table/tracker state must satisfy the same invariants, and after a settle sequence nothing may remain pending (storage back to what the contents need).",
@@ -63,9 +63,9 @@ CLAIMS = {
  "C09": dict(cat="model_checking", tech="TLA+ spec (Kv.tla multimap part) + TLC: exhaustive transition tour replayed into redb, and TLC trace validation of random histories",
    text="as C04 for the multimap model (all 512 states x all steps), with values mapped onto byte strings straddling the inline/subtree threshold; random histories with len() and per-key len checked at every step.",
    note="trusted: TLC, harness; multimap values limited to u64 and the byte-string corpus", ref="DESIGN.md 4/C09"),
- "C17": dict(cat="model_checking", tech="TLA+ spec (Kv.tla catalog rules) + TLC trace validation of random catalog histories of the real code; spec->impl: behaviours generated by TLC from Kv.tla (MC_KvPaths.tla, simulation) replayed on the real code with every result and the committed catalog compared",
-   text="every open/close/rename/delete/list call of random histories (right and deliberately wrong kinds and types, handles dropped in any order, commit/abort/reopen) must be an enabled instance of the catalog actions of Kv.tla, including the exact error variant.",
-   note="trusted: TLC, harness; 6 normal and 4 multimap (K,V) instantiations", ref="DESIGN.md 4/C17"),
+ "C17": dict(cat="model_checking", tech="TLA+ spec (Kv.tla catalog rules; TypesTrace.tla type identity) + TLC trace validation of random catalog histories and of a type-pair matrix of the real code; spec->impl: behaviours generated by TLC from Kv.tla (MC_KvPaths.tla, simulation) replayed on the real code with every result and the committed catalog compared",
+   text="every open/close/rename/delete/list call of random histories (right and deliberately wrong kinds and types, handles dropped in any order, commit/abort/reopen) must be an enabled instance of the catalog actions of Kv.tla, including the exact error variant. Type identity (TypesTrace.tla): every ordered pair of 21 key / value types incl. user-defined ones named like built-ins and tuples / Option / arrays of them - created with one, opened with the other: success iff the abstract descriptors are equal.",
+   note="trusted: TLC, harness; 6 normal and 4 multimap (K,V) instantiations in the random histories, 21 types in the type-identity matrix", ref="DESIGN.md 4/C17"),
 }
 
 NOT_YET = {
